@@ -933,62 +933,57 @@ func (s *Subscription) loadAccess(cb func(*rescache.Access), t *rescache.Throttl
 
 	if t != nil {
 		t.Add(func() {
-			s.c.Access(s, func(access *rescache.Access) {
-				s.c.Enqueue(func() {
-					cbs := s.accessCallbacks
-					s.flags &= ^flagAccessCalled
-					if s.state == stateDisposed {
-						// Let requests waiting for the access response get
-						// an error response.
-						s.accessCallbacks = nil
-						access = &rescache.Access{Error: errDisposedSubscription}
-						for _, cb := range cbs {
-							cb(access)
-						}
-						return
-					}
-
-					// Only store in case of an actual result or system.accessDenied error
-					if access.Error == nil || access.Error.Code == reserr.CodeAccessDenied {
-						s.access = access
-					}
-					s.accessCallbacks = nil
-
-					for _, cb := range cbs {
-						cb(access)
-					}
-				})
+			// The throttle may call back long after the access was requested, and
+			// from any goroutine. Make the request from the connection worker, and
+			// only if the subscription is still in use.
+			if !s.c.Enqueue(func() { s.throttledAccess(t) }) {
 				t.Done()
-			})
+			}
 		})
 	} else {
-		s.c.Access(s, func(access *rescache.Access) {
-			s.c.Enqueue(func() {
-				cbs := s.accessCallbacks
-				s.flags &= ^flagAccessCalled
-				if s.state == stateDisposed {
-					// Let requests waiting for the access response get
-					// an error response.
-					s.accessCallbacks = nil
-					access = &rescache.Access{Error: errDisposedSubscription}
-					for _, cb := range cbs {
-						cb(access)
-					}
-					return
-				}
-
-				// Only store in case of an actual result or system.accessDenied error
-				if access.Error == nil || access.Error.Code == reserr.CodeAccessDenied {
-					s.access = access
-				}
-				s.accessCallbacks = nil
-
-				for _, cb := range cbs {
-					cb(access)
-				}
-			})
-		})
+		s.c.Access(s, s.handleAccess)
 	}
+}
+
+// throttledAccess sends the access request of a throttled loadAccess call,
+// unless the subscription has been disposed while waiting for the throttle.
+func (s *Subscription) throttledAccess(t *rescache.Throttle) {
+	if s.state == stateDisposed {
+		t.Done()
+		return
+	}
+	s.c.Access(s, func(access *rescache.Access) {
+		s.handleAccess(access)
+		t.Done()
+	})
+}
+
+// handleAccess passes the access response on to the callbacks waiting for it.
+func (s *Subscription) handleAccess(access *rescache.Access) {
+	s.c.Enqueue(func() {
+		cbs := s.accessCallbacks
+		s.flags &= ^flagAccessCalled
+		if s.state == stateDisposed {
+			// Let requests waiting for the access response get
+			// an error response.
+			s.accessCallbacks = nil
+			access = &rescache.Access{Error: errDisposedSubscription}
+			for _, cb := range cbs {
+				cb(access)
+			}
+			return
+		}
+
+		// Only store in case of an actual result or system.accessDenied error
+		if access.Error == nil || access.Error.Code == reserr.CodeAccessDenied {
+			s.access = access
+		}
+		s.accessCallbacks = nil
+
+		for _, cb := range cbs {
+			cb(access)
+		}
+	})
 }
 
 // CanGet checks asynchronously if the client connection has access to get (read)
